@@ -1,0 +1,7 @@
+//go:build !verif
+
+// Package veriftrace provides trace points for the verification harness in /verif. With the build
+// tag verif a point forwards to Sink (if set); without it every point is an empty function.
+package veriftrace
+
+func Point(string, ...any) {}
